@@ -23,8 +23,11 @@ pub fn now_secs() -> u64 {
 pub enum Common {
     Data(Vec<u8>),
     Connect(Vec<u8>, Address),
-    Udp(Vec<u8>, Address),
+    Udp(Vec<u8>, Option<Address>),
 }
+
+/// a `BytesMut` item that is one datagram (VMess UDP client side), not a piece of a byte stream
+pub struct Datagram(pub BytesMut);
 
 impl From<BytesMut> for Common {
     fn from(b: BytesMut) -> Self {
@@ -37,14 +40,14 @@ impl From<InboundIn> for Common {
         match i {
             InboundIn::ConnectTcp(b, a) => Common::Connect(b.to_vec(), a),
             InboundIn::RelayTcp(b) => Common::Data(b.to_vec()),
-            InboundIn::RelayUdp(b, a) => Common::Udp(b.to_vec(), a),
+            InboundIn::RelayUdp(b, a) => Common::Udp(b.to_vec(), Some(a)),
         }
     }
 }
 
 impl From<DatagramPacket> for Common {
     fn from(p: DatagramPacket) -> Self {
-        Common::Udp(p.0.to_vec(), p.1)
+        Common::Udp(p.0.to_vec(), Some(p.1))
     }
 }
 
@@ -105,7 +108,7 @@ impl Events {
                 self.1.extend_from_slice(&b);
                 self.0.push(format!("c:{}:{}", show_addr(&a).replace(':', "/"), hex(&b)))
             }
-            Common::Udp(b, a) => self.0.push(format!("u:{}:{}", show_addr(&a).replace(':', "/"), hex(&b))),
+            Common::Udp(b, a) => self.0.push(format!("u:{}:{}", a.map(|a| show_addr(&a).replace(':', "/")).unwrap_or("-".into()), hex(&b))),
         }
     }
     pub fn text(&self) -> String {
@@ -126,6 +129,7 @@ where
     fr: Pin<Box<FramedRead<DuplexStream, C>>>,
     tx: Option<DuplexStream>,
     done: bool,
+    datagrams: bool,
     _e: std::marker::PhantomData<E>,
 }
 
@@ -137,7 +141,13 @@ where
 {
     pub fn new(codec: C) -> Self {
         let (tx, rx) = tokio::io::duplex(1 << 26);
-        Framed { fr: Box::pin(FramedRead::new(rx, codec)), tx: Some(tx), done: false, _e: std::marker::PhantomData }
+        Framed { fr: Box::pin(FramedRead::new(rx, codec)), tx: Some(tx), done: false, datagrams: false, _e: std::marker::PhantomData }
+    }
+
+    /// every item of this decoder is one datagram
+    pub fn datagrams(mut self) -> Self {
+        self.datagrams = true;
+        self
     }
 
     fn drain(&mut self, ev: &mut Events) {
@@ -152,7 +162,10 @@ where
                     self.done = true;
                     break;
                 }
-                Some(Some(Ok(item))) => ev.item(item.into()),
+                Some(Some(Ok(item))) => match item.into() {
+                    Common::Data(b) if self.datagrams => ev.item(Common::Udp(b, None)),
+                    other => ev.item(other),
+                },
                 Some(Some(Err(_))) => ev.0.push("err".into()),
             }
         }
@@ -365,7 +378,7 @@ pub mod vm {
         let cfg: ServerConfig<cv::SslConfig> = server_config("vmess", cipher, uuid, &[])?;
         let codec = if udp { cv::vmess::udp::new_codec(addr, &cfg)? } else { cv::vmess::tcp::new_codec(addr, (cfg.cipher, cfg.password.clone()))? };
         let _ = CipherKind::Aes128Gcm;
-        Ok(Box::new(Framed::<_, BytesMut>::new(codec)))
+        Ok(if udp { Box::new(Framed::<_, BytesMut>::new(codec).datagrams()) } else { Box::new(Framed::<_, BytesMut>::new(codec)) })
     }
 
     pub fn server(users: &[(String, String)]) -> Result<Boxed> {
